@@ -207,6 +207,7 @@ def diffroi_event(darsia, rng, tid, shape, h, omode, table, comps, T):
 
 
 STK = [-1]
+APP = [-1]
 
 
 def stack_event(darsia, rng, tid, n, k, timekind, shape, use_append):
@@ -215,9 +216,9 @@ def stack_event(darsia, rng, tid, n, k, timekind, shape, use_append):
     # spacing of the acquisition times: seconds, half a day, more than a day, fractions of a second
     step = rng.choice([10.0, 40000.0, 93600.0, 7.25])
     # (relative times by turns: all positive; starting at exactly 0; running through 0 from negative times)
-    if timekind == "times":
+    if timekind == "times" and use_append:
         STK[0] += 1
-    t0 = [0.0, 3.0, -step, 0.0, -2 * step][STK[0] % 5]
+    t0 = [0.0, 3.0, -step, 0.0, -2 * step][STK[0] % 5] if use_append else 3.0
     for i in range(k):
         arr = (np.arange(int(np.prod(full)), dtype=float) + 1000 * i).reshape(full)
         kw = dict(space_dim=n, dimensions=[1.0 * s for s in shape], scalar=True)
@@ -230,7 +231,10 @@ def stack_event(darsia, rng, tid, n, k, timekind, shape, use_append):
     def proj(im):      # times and dates in milliseconds
         return {"tags": [int(x) for x in im.img.ravel()], "time": -1 if im.time is None else int(round(1000 * im.time)),
                 "date": -1 if im.date is None else int(round(1000 * (im.date - BASE_DATE).total_seconds()))}
-    offset = rng.choice([0, 0, 5, 120]) if (use_append and timekind == "times") else 0
+    # (the offset between the clocks of the appended images by turns: none (int 0 / float 0.0 - a common clock), seconds, minutes)
+    if use_append and timekind == "times":
+        APP[0] += 1
+    offset = [0, 5, 0.0, 120][APP[0] % 4] if (use_append and timekind == "times") else 0
     e = {"tid": tid, "op": "stack", "k": k, "timekind": timekind, "via": "append" if use_append else "stack", "raised": 0,
          "orig": [proj(im) for im in imgs], "back": [], "offset": 1000 * offset, "step": step}
     try:
